@@ -407,6 +407,23 @@ def rule_window(ck: Check, repo: Repo, folder: Folder, rid: str = "R5") -> None:
     elif not (len(whole) == 1 and not sized and len(tests) >= 1 and not in_loop):
         raise AnalysisError("_contains_snippet: unrecognised way of searching the snippet marker (neither a whole-file read"
                             " nor a chunk loop)")
+    # ... and the answer has the polarity of the membership test: True when the indicator is in the content
+    for t in tests:
+        par = None
+        for n in ast.walk(cs):
+            if isinstance(n, ast.If) and n.test is t:
+                par = n
+            if isinstance(n, ast.Return) and n.value is t:
+                par = "returned"
+        if par == "returned":
+            continue
+        if isinstance(par, ast.If):
+            rets = [x for x in par.body if isinstance(x, ast.Return) and isinstance(x.value, ast.Constant)]
+            r.instance("_contains_snippet-polarity", {"returns_when_found": rets[0].value.value if rets else None}, f"{EX}._contains_snippet")
+            if rets and rets[0].value.value is not True:
+                r.violation(f"{EX}._contains_snippet", "the answer is inverted",
+                            "a file that contains the snippet marker is reported snippet-free: only its first 4 KiB are scanned and the"
+                            " information in its snippets is lost", repo.loc(par))
     # R6 decode
     dq = f"{EX}.decoded_text_from_binary"
     dfn = repo.func(dq)
